@@ -383,7 +383,7 @@ func norm(v reflect.Value) any {
 	return "?"
 }
 
-// ------------------------------------------------------------------ known finding: omitempty-rounds-to-zero
+// ------------------------------------------------------------------ former known finding omitempty-rounds-to-zero (fixed): coverage only
 
 func encNil(v reflect.Value) bool {
 	switch v.Kind() {
@@ -433,7 +433,7 @@ func backZero(v reflect.Value) bool {
 	return v.IsZero()
 }
 
-// omitRoundsToZero is the class predicate of the known finding: some omitempty field holds a value that is not
+// omitRoundsToZero was the class predicate of the (now fixed) known finding; it only feeds the coverage histogram: some omitempty field holds a value that is not
 // the zero value but comes back as the zero value (a duration below one millisecond, the zero instant in
 // another zone or with nanoseconds, a pointer to a nil pointer, a struct of such values or with data only in
 // ignored fields). It is encoded (as 0 / null / {}) but dropped when the decoded value is encoded again.
